@@ -175,6 +175,14 @@ func (e *apiEnv) seedState(r interface{ Intn(int) int }) error {
 	}
 	s := "alice"
 	ts = append(ts, &ketoapi.RelationTuple{Namespace: "Group", Object: "g", Relation: "members", SubjectID: &s})
+	// nested groups: answers that need two or more indirections through shared subject sets
+	for _, o := range []string{"a", "b", "c"} {
+		ts = append(ts, &ketoapi.RelationTuple{Namespace: "Doc", Object: o, Relation: "viewers", SubjectSet: &ketoapi.SubjectSet{Namespace: "Group", Object: "n1", Relation: "members"}})
+	}
+	ts = append(ts,
+		&ketoapi.RelationTuple{Namespace: "Group", Object: "n1", Relation: "members", SubjectSet: &ketoapi.SubjectSet{Namespace: "Group", Object: "n2", Relation: "members"}},
+		&ketoapi.RelationTuple{Namespace: "Group", Object: "n2", Relation: "members", SubjectSet: &ketoapi.SubjectSet{Namespace: "Group", Object: "n3", Relation: "members"}},
+		&ketoapi.RelationTuple{Namespace: "Group", Object: "n3", Relation: "members", SubjectID: &s})
 	its, err := e.reg.Mapper().FromTuple(e.ctx, ts...)
 	if err != nil {
 		return err
